@@ -69,8 +69,16 @@ pub fn format_dividend(
 }
 
 /// Format a comment line
+///
+/// A comment ends at the end of its line, so line breaks inside `text` (free-text
+/// fields of broker exports can contain them) are flattened to spaces; otherwise the
+/// rest of the text would spill into the DSL body.
 pub fn format_comment(text: &str) -> String {
-    format!("# {}", text)
+    let single_line: String = text
+        .chars()
+        .map(|c| if c == '\n' || c == '\r' { ' ' } else { c })
+        .collect();
+    format!("# {}", single_line)
 }
 
 /// Generate header comments for a converted file
